@@ -26,6 +26,24 @@ fi
 [ $PHASE = confirm ] && exit 0
 echo "== our checks against /repo + patch"
 cd /verif
+# SEED_ISOLATED=1: do not touch /repo; run the checks in a private mount namespace in which a patched
+# copy of /repo is bind-mounted over /repo (needed while a long background run depends on /repo)
+if [ "${SEED_ISOLATED:-0}" = 1 ]; then
+  COPY=/tmp/seedrepo-$NAME
+  rsync -a --delete --exclude target --exclude .git /repo/ $COPY/
+  (cd $COPY && git apply $SEED/patch.diff) || { echo "PATCH DOES NOT APPLY TO /repo"; rm -rf $COPY; exit 2; }
+  RES=""
+  for c in "$@"; do
+    OUT=$(unshare -m bash -c "mount --bind $COPY /repo && cd /verif && VERIF_OUT=/tmp/seedout-$NAME ./check $c quick" 2>&1)
+    CODE=$?
+    KEY=$(echo "$OUT" | grep -m1 "key:" | sed 's/^ *//')
+    echo "check $c -> exit $CODE  $KEY"
+    RES="$RES $c:$CODE"
+  done
+  rm -rf $COPY
+  echo "RESULT $NAME suite=[$T] demo_with=[$D1] demo_without=[$D2] checks=[$RES]"
+  exit 0
+fi
 git -C /repo apply $SEED/patch.diff || { echo "PATCH DOES NOT APPLY TO /repo"; exit 2; }
 RES=""
 for c in "$@"; do
